@@ -6,6 +6,7 @@ import (
 	"sort"
 	"strings"
 	"time"
+	"unicode/utf8"
 
 	"github.com/luthersystems/elps/lisp"
 	"github.com/luthersystems/elps/verifharness/vcommon"
@@ -92,6 +93,7 @@ type Apply struct {
 	Name string `json:"name"`
 	Via  string `json:"via"`
 	Args []VD   `json:"args"`
+	Tag  string `json:"tag,omitempty"` // generator block the case came from (classification only)
 }
 
 // ---------- argument generation guided by formal names ----------
@@ -182,6 +184,11 @@ func genArgFor(t *rapid.T, g *genState, c *Callable, name string) VD {
 	case name == "type-specifier":
 		return VD{K: "sym", S: []byte(rapid.SampledFrom([]string{"list", "vector", "bytes", "string", "sorted-map", "lisp:list", "c03t", "int", ""}).Draw(t, "ts")),
 			Q: rapid.IntRange(0, 1).Draw(t, "q")}
+	case c.Pkg == "s" && has(name, "type", "constraint", "constraints", "allowed-types") && rapid.IntRange(0, 3).Draw(t, "schema") > 0:
+		// a schema constraint / validator built by the schema package itself
+		return rapid.SampledFrom(schemaValidatorPool).Draw(t, "validator")
+	case c.Pkg == "s" && name == "input" && rapid.Bool().Draw(t, "kindvalue"):
+		return rapid.SampledFrom(hostileKindPool).Draw(t, "kindvalue")
 	case has(name, "fn", "fun", "f", "g", "predicate", "less-predicate", "binary-function", "key-fun", "constraint", "constraints"):
 		return genFun(t)
 	case name == "val" && rapid.IntRange(0, 2).Draw(t, "arr") == 0:
@@ -259,6 +266,8 @@ func genArgFor(t *rapid.T, g *genState, c *Callable, name string) VD {
 		}
 	case name == "re":
 		return VD{K: "native", I: rapid.SampledFrom([]int64{12, 12, 11}).Draw(t, "re")}
+	case name == "field-name" && rapid.IntRange(0, 3).Draw(t, "field") > 0:
+		return VD{K: "str", S: []byte(rapid.SampledFrom(hostFieldNames).Draw(t, "fname"))}
 	case has(name, "datetime"):
 		return VD{K: "native", I: rapid.SampledFrom([]int64{1, 1, 23, 28, 22}).Draw(t, "dt"),
 			F: uint64(rapid.SampledFrom([]int64{0, 1700000000, -62135596800, 253402300799, 1 << 62, -(1 << 62)}).Draw(t, "p"))}
@@ -267,7 +276,7 @@ func genArgFor(t *rapid.T, g *genState, c *Callable, name string) VD {
 	case has(name, "bytes", "json-bytes", "data"):
 		return VD{K: "bytes", S: []byte(rapid.SampledFrom(hostileStrs).Draw(t, "s"))}
 	case name == "json-message":
-		return VD{K: "native", I: 21}
+		return VD{K: "native", I: rapid.SampledFrom([]int64{21, 21, 30, 48, 49, 59, 20}).Draw(t, "jm")}
 	case has(name, "native-value", "native-struct"):
 		return VD{K: "native", I: int64(rapid.IntRange(0, numNativeSel-1).Draw(t, "nat")), F: uint64(rapid.SampledFrom(hostileInts).Draw(t, "p"))}
 	case has(name, "bindings"):
@@ -374,10 +383,80 @@ var formatTemplates = []string{"{}", "{} {}", "{0}", "{1}", "{1} {0}", "{2}", "{
 
 func f64bits(f float64) uint64 { return math.Float64bits(f) }
 
+var (
+	schemaValidatorPool = schemaValidators()
+	hostileKindPool     = hostileKindValues()
+)
+
+// classifyArgs labels the new argument shapes for the evidence histogram.
+func classifyArgs(a Apply, ctx *vcommon.Ctx) {
+	long, pos := false, false
+	var text []byte
+	for _, d := range a.Args {
+		if (d.K == "str" || d.K == "bytes") && isLongMultibyte(d.S) {
+			long, text = true, d.S
+		}
+	}
+	if long {
+		ctx.Class("arg/long-multibyte-text")
+		B, R := int64(len(text)), int64(utf8.RuneCount(text))
+		for _, d := range a.Args {
+			if d.K == "int" && d.I > 8 && (abs64(d.I-B) <= 2 || abs64(d.I-R) <= 4 || d.I == B/2 || d.I == R/2 || d.I == B-R) {
+				pos = true
+			}
+		}
+		if pos {
+			ctx.Class("arg/long-multibyte-text+position-from-it")
+		}
+	}
+	if multiBackref(a.Args) {
+		ctx.Class("arg/multi-backref-cycle")
+	}
+	if mentionsKind(a.Args, "call") {
+		ctx.Class("arg/built-by-callable")
+	}
+}
+
+// applyHugeRegexp: a regular expression COMPILED from a huge pattern (s:regexp,
+// regexp:regexp-compile on a bigstr / nest of >= 10 000 units) together with a
+// huge text in the same tuple.
+func applyHugeRegexp(l []VD) bool {
+	huge := func(d VD) bool { return (d.K == "bigstr" || d.K == "nest") && d.I >= 10000 }
+	pattern, text := false, false
+	var walk func(l []VD, underRe bool)
+	walk = func(l []VD, underRe bool) {
+		for _, d := range l {
+			re := d.K == "call" && (string(d.S) == "s:regexp" || string(d.S) == "regexp:regexp-compile")
+			if huge(d) {
+				if underRe {
+					pattern = true
+				} else {
+					text = true
+				}
+			}
+			walk(d.L, underRe || re)
+		}
+	}
+	walk(l, false)
+	return pattern && text
+}
+
+func mentionsKind(l []VD, k string) bool {
+	for _, d := range l {
+		if d.K == k || mentionsKind(d.L, k) {
+			return true
+		}
+	}
+	return false
+}
+
 func genApply() *rapid.Generator[Apply] {
 	return rapid.Custom(func(t *rapid.T) Apply {
 		if rapid.IntRange(0, 19).Draw(t, "kwcall") == 0 {
 			return genKeywordCall(t)
+		}
+		if rapid.IntRange(0, 7).Draw(t, "textpos") == 0 {
+			return genTextPosApply(t)
 		}
 		c := &callables[rapid.IntRange(0, len(callables)-1).Draw(t, "callable")]
 		a := Apply{Pkg: c.Pkg, Name: c.Name, Via: "direct"}
@@ -425,7 +504,7 @@ func hostileKinds(b *builder) string {
 	var ks []string
 	for k := range b.kinds {
 		switch k {
-		case "list", "sexpr", "vector", "array", "map", "jsonmap", "native", "error", "fun", "tagged", "typedef", "ref", "lambda":
+		case "list", "sexpr", "vector", "array", "map", "jsonmap", "native", "error", "fun", "tagged", "typedef", "ref", "lambda", "call":
 			ks = append(ks, k)
 		}
 	}
@@ -525,6 +604,18 @@ func checkApply(a Apply, ctx *vcommon.Ctx) *vcommon.Failure {
 			}
 		}
 	}
+	if applyHugeRegexp(a.Args) {
+		// FOUND on the unchanged tree (see NOTES.md, "regexp pattern x text"):
+		// a 100 000-character pattern matched against a 100 000-character text
+		// is ~4*10^10 automaton steps inside one builtin call that polls no
+		// limit.  Excluded by construction and counted so the search goes on.
+		ctx.Class("excluded-found/wedge/regexp-pattern-x-text")
+		return nil
+	}
+	if a.Tag != "" {
+		ctx.Class("block/" + a.Tag)
+	}
+	classifyArgs(a, ctx)
 	journal("apply-registry", a)
 	return isolated("apply-registry", a, func(kind, fam string) string {
 		if fam == "" {
@@ -721,6 +812,8 @@ func describeVD(d VD, depth int) string {
 		return fmt.Sprintf("gofun#%d", d.I)
 	case "ref":
 		return fmt.Sprintf("ref->#%d", d.ID)
+	case "call":
+		return fmt.Sprintf("%s#%d (%s%s)", q, d.ID, d.S, strings.TrimSuffix(strings.TrimPrefix(describeKids(d, depth), "<"+string(d.S)+">("), ")"))
 	case "array":
 		return fmt.Sprintf("%s#%d array%v%s", q, d.ID, d.D, describeKids(d, depth))
 	case "list", "sexpr", "vector", "map", "jsonmap", "tagged", "error", "lambda":
